@@ -150,6 +150,20 @@ Proof.
 Qed.
 End KmersOutCor.
 
+(* with totality: compress_kmers returns, and what it returns passes is_compressed and is a fixed point of compress_graph *)
+Theorem compress_kmers_compressed D reduce join K st : 1 <= K -> congruent D reduce join -> forall T : table D,
+  tbl_ok D K st T -> CompressSpec.exts_sym D st T -> exts_sym_pal D st T -> exts_closed D st T ->
+  exists nodes, compress_kmers D reduce join st T = Some nodes /\
+    is_compressed D join K st nodes = None /\
+    compress_graph D reduce join K st nodes None = Some nodes.
+Proof.
+  intros HK C T Hok Hsym Hpal Hcl.
+  destruct (compress_kmers_rvalid_loose D reduce join K st HK T Hok Hsym Hpal) as (nodes & Hc & _).
+  exists nodes. split; [exact Hc|].
+  destruct (kmers_out_closed D reduce join K st HK C T Hok Hsym Hpal nodes Hc Hcl) as (_ & _ & _ & I & F). auto.
+Qed.
+
 Print Assumptions rnext_prune_cases.
 Print Assumptions kmers_out_pruned_pair.
 Print Assumptions kmers_out_closed.
+Print Assumptions compress_kmers_compressed.
